@@ -55,7 +55,7 @@ def cases(rng, tier, X):
     out.append(('positions', ops))
     # declared count vs what the frame holds
     ops = base + tblops
-    for declared in [0, 1, 2, 5, 6, 7, 240, 241, 256, 0x7fff, 0x8000, 0xffff]:
+    for declared in [0, 1, 2, 5, 6, 7, 240, 241, 256, 0x7fff, 0x8000, 0xffff, 10923, 10924, 21846, 32769, 43691, 54614]:    # incl. counts whose product with 6 wraps 16 bits
         for n in [0, 1, 5, 6]:
             for pos in [None, 0, n - 1]:
                 if pos is not None and (pos < 0 or pos >= n):
